@@ -43,6 +43,12 @@ class PROP(Prop):
                 for end in ENDS:
                     for sh in (SHUT if len(seq) == 2 else ["ok", "e:BrokenPipe", "e:PermissionDenied"]):
                         cs.append(self.build(proto, seq, sh, rng, end=end))
+            # a disconnect whose future is dropped while the transport's shutdown is still pending (a timeout around disconnect()):
+            # the client is inert all the same; what follows must not touch the transport
+            for seq in [s for n in range(2, 5) for s in itertools.product("cdsD", repeat=n)]:
+                if "D" not in seq or (tier == "quick" and len(seq) == 4 and rng.random() < 0.6):
+                    continue
+                cs.append(self.build(proto, seq, rng.choice(["ok", "e:Other"]), rng, end=rng.choice(["ok", "mix"])))
             for _ in range(150 if tier == "quick" else 1500):
                 seq = tuple(rng.choice("cccds") for _ in range(rng.randrange(3, 8)))
                 if "d" in seq:
@@ -88,6 +94,11 @@ class PROP(Prop):
             elif o == "d":
                 ops.append("disc %s" % (sh if not disconnected else rng.choice(["ok", "e:Other", "-"])))
                 disconnected = True
+            elif o == "D":
+                # pending shutdown, future dropped after 0..2 Pending polls (before the shutdown could complete)
+                npend = rng.randrange(1, 4)
+                ops.append("disc %s %d" % (",".join(["p"] * npend + [rng.choice(["ok", "e:Other"])]), rng.randrange(0, npend)))
+                disconnected = True
             else:
                 slave = rng.randrange(256)
                 ops.append("slave %d" % slave)
@@ -102,7 +113,15 @@ class PROP(Prop):
         for i, (o, r) in enumerate(zip(seq, rs)):
             if "PANIC" in r:
                 return "panic"
-            if o == "d":
+            if o == "D":
+                res, sd = r.split(" sd=")
+                if not disc:
+                    if res != "WAIT" or sd != "0":
+                        return "disconnect dropped while its shutdown was pending: %s (want WAIT, no completed shutdown)" % r
+                    disc = True
+                elif sd != "0" or res != "OK":
+                    return "repeated disconnect: %s (want OK, no shutdown)" % r
+            elif o == "d":
                 res, sd = r.split(" sd=")
                 if not disc:
                     k = sh.split(",")[-1]
@@ -123,4 +142,5 @@ class PROP(Prop):
 
     def nontrivial(self, c):
         s = c.meta["seq"]
+        s = s.replace("D", "d")
         return "d" in s and s.index("d") < len(s) - 1
